@@ -499,9 +499,44 @@ def lead_rule(ctx):
     return layout_rule(ctx)
 
 
+def extnorm_rule(ctx):
+    """BM-EXTNORM.  The conditioner networks use torch's own normalisation layers.  In evaluation mode
+    nn.BatchNorm*d normalises with its running statistics -- per-row -- *unless* it was built with
+    track_running_stats=False (then it always uses the statistics of the batch in hand), and
+    nn.InstanceNorm*d / GroupNorm / LayerNorm never mix rows.  So every construction of a torch batch-norm
+    layer in the repository leaves track_running_stats at its default (True) or passes the constant True
+    (T-NN: the documented behaviour of these layers)."""
+    p = ctx.p
+    res = RuleResult("BM-EXTNORM", "every torch batch-norm layer built by the repository tracks running statistics (track_running_stats left True), so evaluation mode normalises each row with stored statistics")
+    n = 0
+    for fi in p.all_functions():
+        if not fi.module.name.startswith("nflows."):
+            continue
+        for c in ast.walk(fi.node):
+            if not isinstance(c, ast.Call):
+                continue
+            f = c.func
+            last = f.attr if isinstance(f, ast.Attribute) else (f.id if isinstance(f, ast.Name) else "")
+            if not (last.startswith("BatchNorm") or last in ("SyncBatchNorm", "LazyBatchNorm1d", "LazyBatchNorm2d")):
+                continue
+            r = p.resolve_expr(fi.module, f) if isinstance(f, (ast.Name, ast.Attribute)) else None
+            if not (isinstance(r, tuple) and r[0] == "ext" and r[1].startswith("torch.nn.")):
+                continue
+            n += 1
+            trs = next((k.value for k in c.keywords if k.arg == "track_running_stats"), c.args[4] if len(c.args) > 4 else None)
+            mom = next((k.value for k in c.keywords if k.arg == "momentum"), None)
+            if trs is None or (isinstance(trs, ast.Constant) and trs.value is True):
+                res.ok("%s: %s with running statistics" % (fi.qualname, last))
+            else:
+                res.fail(Finding("BM-EXTNORM", fi.module, fi.qualname, c, "%s is built with track_running_stats=%s: in evaluation mode it then normalises with the statistics of the batch in hand, so what is computed for a row depends on the other rows" % (last, norm_text(trs))))
+    if n < 4:
+        raise AnalysisIncomplete("BM-EXTNORM: %d torch batch-norm constructions found (< 4; six on the pinned tree)" % n)
+    return res
+
+
 register(
     "C12",
-    [reduce_rule, mask_rule, rows_rule, eval_stats_rule, rng_rule, lead_rule],
+    [reduce_rule, mask_rule, rows_rule, eval_stats_rule, rng_rule, lead_rule, extnorm_rule],
     "BM-REDUCE: taint analysis of every given-rows entry point (forward/inverse of every Transform, log_prob/_log_prob/"
     "transform_to_noise of every Distribution, forward/log_prob of the other modules, the spline functions) under the scenario "
     "self.training == False: a reduction with no dim or a constant dim containing 0 (and sum_except_batch(num_batch_dims=0)) of "
